@@ -722,6 +722,34 @@ class Impl:
             return "."
         return ";".join(f"{ad},{hx(h)},{hx(text)},{hx(stage)}" for (ad, h), text, stage in rows)
 
+    @staticmethod
+    def _cache_table(t):
+        if t is None:
+            return "none"
+        def status(x):
+            if isinstance(x, list) and all(isinstance(v, bool) for v in x):
+                return "P" + ".".join("1" if v else "0" for v in x)
+            return "L" + ".".join(str(int(v)) for v in x)
+        def block(b):
+            return ",".join([hx(str(b.valid_bit)), hx(str(b.dirty_bit)), hx(str(b.tag))] + [f"{hx(str(a_))}={hx(str(v))}" for a_, v in b.address_value_list])
+        return ";".join(f"{hx(str(s_.index))}|{status(s_.replacement_status)}|{'/'.join(block(b) for b in s_.blocks)}" for s_ in t.sets)
+
+    def c_sim_dcachetable(self, a):
+        return self._cache_table(self.sim.get_data_cache_entries())
+
+    def c_sim_icachetable(self, a):
+        return self._cache_table(self.sim.get_instruction_cache_entries())
+
+    def c_sim_metrics(self, a):
+        # the counter lines of the metrics text (wall-clock lines and the float `cycles per instruction` are not modelled)
+        t = self.sim.get_performance_metrics_str().split("\n")
+        keep = [x for x in t if x and not x.startswith(("execution time", "instructions per second", "cycles per instruction"))]
+        return "|".join(hx(x) for x in keep)
+
+    def c_toy_metrics(self, a):
+        t = self.toy.get_performance_metrics_str().split("\n")
+        return "|".join(hx(x) for x in t if x and not x.startswith(("execution time", "instructions per second")))
+
     def c_sim_wi(self, a):
         # the public per-instruction entry point of the instruction memory system
         k = int(a[0])
@@ -744,8 +772,7 @@ class Impl:
         return f"{hx(d['hits'])},{hx(d['accesses'])},{1 if d['last_hit'] else 0}," + (("-" if ad is None else hx(ad)) if with_addr else "?")
 
     def c_sim_dstats(self, a):
-        # the address shown in single-stage mode is the ALU result kept in the display register (not modelled)
-        return self._stats(self.sim.get_data_cache_stats(), with_addr=self.five)
+        return self._stats(self.sim.get_data_cache_stats())
 
     def c_sim_istats(self, a):
         return self._stats(self.sim.get_instruction_cache_stats())
